@@ -31,7 +31,7 @@ type wCase struct {
 	Policy    int    `json:"policy"`
 	PDir      int    `json:"pdir"`
 	Trunc     int    `json:"trunc"`     // TruncateAfterLines
-	Truncator int    `json:"truncator"` // 0 empty, 1 advance 7, 2 advance 1000
+	Truncator int    `json:"truncator"` // 0 empty, 1 advance 7.375, 2 advance 1000, 3 advance 7.375 shaped against the paragraph direction
 	Continues bool   `json:"continues"`
 	NoTrim    bool   `json:"notrim"`
 	WordSp    int    `json:"wordsp"`   // 26.6 units
@@ -49,7 +49,7 @@ var wDirs = []di.Direction{di.DirectionLTR, di.DirectionRTL, di.DirectionTTB, di
 
 func isWhitespaceRune(r rune) bool {
 	switch r {
-	case ' ', '\n', 0x00A0, 0x200B, 0x2029:
+	case ' ', '\n', 0x00A0, 0x200B, 0x2029, '\r', 0x0085, 0x000B, 0x000C, 0x2028:
 		return true
 	}
 	return false
@@ -63,7 +63,7 @@ func clusterAdvance(rs []rune) (adv, width fixed.Int26_6) {
 			return 5<<6 + 32, 0 // 5.5 px, whitespace
 		case 0x00A0:
 			return 5 << 6, 0
-		case '\n', 0x200B, 0x2029:
+		case '\n', 0x200B, 0x2029, '\r', 0x0085, 0x000B, 0x000C, 0x2028:
 			return 0, 0
 		case 0x0301:
 			return 0, 4 << 6 // zero advance mark with ink
@@ -266,13 +266,16 @@ func buildPara(c *wCase, seg *segmenter.Segmenter) *mPara {
 	}
 	// truncator
 	switch c.Truncator {
-	case 1, 2:
+	case 1, 2, 3:
 		adv := fixed.Int26_6(7<<6 + 24) // 7.375 px: fractional, so that rounding of the reduced width is observable
 		if c.Truncator == 2 {
 			adv = 1000 << 6
 		}
 		g := shaping.Glyph{GlyphID: 9999, Mask: truncMaskBase, GlyphCount: 1, RuneCount: 1, Width: adv - 64}
 		dir := wDirs[c.PDir]
+		if c.Truncator == 3 {
+			dir = wDirs[c.PDir^1] // a truncator shaped against the paragraph direction (e.g. an LTR ellipsis in RTL text)
+		}
 		if p.vertical {
 			dir = di.DirectionTTB
 			g.YAdvance = -adv
